@@ -80,6 +80,8 @@ def autoreg_harness(cname, D, mode, with_context=False, hidden=None):
                 numr, den = exp_of_term(P(ld)[b])
                 ensure(h, ctx, "C01.logdet", z3.And(zabs(prod) * den == numr, prod != 0))
             ensure(h, ctx, "C01.triangular", z3.BoolVal(tri))
+            rows = all(xid[s_][0] == b for b in range(B) for t_ in list(py[b]) + [P(ld)[b]] for s_ in base_symbols(t_) if s_ in xid)
+            ensure(h, ctx, "C12.row-independent", z3.BoolVal(rows))
             ensure(h, ctx, "C13.no-write", z3.BoolVal(not [w for w in ctx.writes if w[0].startswith("arg:")]))
             return
         x2, ldi = value[2], value[3]
